@@ -4,6 +4,7 @@ import XV.Driver.Regex
 import XV.Driver.Codec
 import XV.Driver.Ns
 import XV.Driver.Dt
+import XV.Driver.Identity
 import XV.Driver.ContentModel
 import XV.Driver.DtdValid
 open XV.Driver
@@ -23,5 +24,6 @@ def main (args : List String) : IO UInt32 := do
   | ["nsmodel"] => lineLoop stdin stdout XV.Driver.Ns.handleModel; return 0
   | ["dt"] => lineLoop stdin stdout XV.Driver.Dt.handle; return 0
   | ["dtspec"] => lineLoop stdin stdout XV.Driver.Dt.handleSpec; return 0
+  | ["ic"] => lineLoop stdin stdout XV.Driver.Identity.handle; return 0
   | ["utf8spec"] => lineLoop stdin stdout XV.Driver.Utf8.handleSpec; return 0
   | _ => IO.eprintln "usage: xvdriver <area>"; return 2
